@@ -152,6 +152,14 @@ def _run(ctx, pq):
     ctx.obligation("digit table: udigit_zeros / uspaces of Impl/Partition.v = unicodedata %s of the running interpreter (decimal digits come in runs of ten)"
                    % unicodedata.unidata_version, runs_ok and list(mz) == zeros and list(ms) == spaces,
                    "model zeros %r... python zeros %r...; model spaces %r python spaces %r" % (list(mz)[:5], zeros[:5], list(ms), spaces))
+    # the metadata block -> kind glue: harness/partlib.kind_of_meta (Python) vs Impl/PartMeta.kind_of_pmeta (the one the regenerated
+    # val_from_meta is proved against), on every kind of block fastparquet writes
+    metas = [meta_of_kind(k) for k in KINDS] + [{"pandas_type": pt, "numpy_type": nt} for pt, nt in (
+        ("int16", "int16"), ("uint16", "uint16"), ("uint32", "uint32"), ("float16", "float16"), ("datetime", "datetime64[ms]"),
+        ("datetime", "datetime64[s]"), ("unicode", "object"), ("string", "str"), ("bytes", "object"), ("mixed", "object"))]
+    for m in metas:
+        mo = pq.call("kind_of_pmeta", L.pmeta_sx(m))
+        ctx.correspondence("kind_of_pmeta (Impl/PartMeta.v) ~ harness glue kind_of_meta", {"meta": m}, L.kind_sx_norm(mo), L.kind_of_meta(m))
     # int() itself on every decimal digit of every script, alone and mixed, and on every white space (model vs the interpreter)
     probe = [chr(z + k) for z in zeros for k in (0, 3, 9)] + [chr(z + 1) + chr(zeros[(i + 1) % len(zeros)] + 2) for i, z in enumerate(zeros)] + \
             [chr(c) + "5" + chr(c) for c in spaces] + [chr(z - 1) for z in zeros] + [chr(z + 10) for z in zeros]
@@ -837,6 +845,15 @@ def check_dataset(case, root, pq, ctx=None, verbose=False):
         if ctx is not None:
             paths = [rg.columns[0].file_path for rg in pf.row_groups]
             pm = [[L.enc(k), L.kind_of_meta(v)] for k, v in pf.partition_meta.items()]
+            for k, v in pf.partition_meta.items():
+                ctx.correspondence("kind_of_pmeta (Impl/PartMeta.v) ~ harness glue kind_of_meta",
+                                   {"meta": {kk: vv for kk, vv in v.items() if kk in ("pandas_type", "numpy_type", "metadata")}},
+                                   L.kind_sx_norm(pq.call("kind_of_pmeta", L.pmeta_sx(v))), L.kind_of_meta(v))
+                # the hypothesis pm_wf of gen_val_from_meta_is_model on the blocks the writer really produced
+                lab = (v.get("metadata") or {}).get("labels") if v.get("pandas_type") == "categorical" else None
+                simple = lambda b: b.get("pandas_type") != "categorical" and not (b.get("pandas_type") == "datetimetz" and b.get("numpy_type") == "datetime64[ns]")
+                wf = (v.get("numpy_type") != "datetime64[ns]" and (lab is None or simple(lab))) if v.get("pandas_type") == "categorical" else simple(v)
+                ctx.correspondence("pm_wf (hypothesis of gen_val_from_meta_is_model) holds of the partition_columns blocks written", {"meta": str(v)[:300]}, True, bool(wf))
             dirs = list(api._strip_path_tail(paths)) if paths else []
             table = L.oracle_table([t for p in paths for seg in p.split("/") for t in seg.split("=")])
             mfiles = [[L.enc(p), file_ids.get(p, [])] for p in paths]
